@@ -99,6 +99,52 @@ def tri(nodes):
     return bezier.Triangle.from_nodes(nodes)
 
 
+
+def _mut_probe(kind, nodes, method, args):
+    """call a public method on a shape built with copy=False from an array we keep; report every caller-visible array whose
+    bytes changed (the receiver's own array, the array it was built from, the cached edges, argument shapes' arrays)"""
+    def build(k, arr):
+        if k == "curve":
+            return bezier.Curve(arr, arr.shape[1] - 1, copy=False)
+        n = arr.shape[1]
+        d = int(round(((8 * n + 1) ** 0.5 - 3) / 2))
+        return bezier.Triangle(arr, d, copy=False)
+    arr = np.asfortranarray(nodes)
+    obj = build(kind, arr)
+    watched = {"array the receiver was built from": arr, "receiver._nodes": obj._nodes}
+    pyargs = []
+    for i, a in enumerate(args):
+        if isinstance(a, list) and len(a) == 3 and a[0] == "shape":
+            aa = np.asfortranarray(a[2])
+            o = build(a[1], aa)
+            watched["argument %d array" % i] = aa
+            watched["argument %d ._nodes" % i] = o._nodes
+            pyargs.append(o)
+        else:
+            v = a
+            if isinstance(v, np.ndarray):
+                watched["argument %d" % i] = v
+            pyargs.append(v)
+    if kind == "triangle" and method != "edges":
+        e = obj.edges
+        for j, c in enumerate(e):
+            watched["cached edge %d" % j] = c._nodes
+    before = {k: v.tobytes() for k, v in watched.items()}
+    exc = None
+    try:
+        m = getattr(obj, method)
+        out = m(*pyargs) if callable(m) else m
+        if method == "edges":
+            for j, c in enumerate(out):
+                watched["edge %d" % j] = c._nodes
+                before["edge %d" % j] = c._nodes.tobytes()
+            out2 = obj.edges          # second access after the first result was handed out
+    except Exception as e_:  # pylint: disable=broad-except
+        exc = type(e_).__name__
+    changed = sorted(k for k, v in watched.items() if v.tobytes() != before[k])
+    return [changed, exc]
+
+
 OPS = {
     # ---- curves, public API
     "Curve.evaluate": lambda n, s: curve(n).evaluate(s),
@@ -108,7 +154,10 @@ OPS = {
     "Curve.elevate": lambda n: curve(n).elevate().nodes,
     "Curve.reduce_": lambda n: curve(n).reduce_().nodes,
     "Curve.evaluate_hodograph": lambda n, s: curve(n).evaluate_hodograph(s),
+    "probe.mutation": lambda kind, n, method, args: _mut_probe(kind, n, method, args),
     "Curve.locate": lambda n, p: curve(n).locate(p),
+    "Curve.locate_shaped": lambda n, vals, shape: curve(n).locate(np.asfortranarray(np.array([float.fromhex(x) for x in vals]).reshape(shape))),
+    "Triangle.locate_shaped": lambda n, vals, shape: tri(n).locate(np.asfortranarray(np.array([float.fromhex(x) for x in vals]).reshape(shape))),
     "Curve.length": lambda n: curve(n).length,
     "Curve.intersect": lambda n1, n2, strat: curve(n1).intersect(
         curve(n2), strategy=getattr(bezier.hazmat.intersection_helpers.IntersectionStrategy, strat)),
